@@ -950,6 +950,77 @@ def gen(tree, out, report):
 
 
 
+
+# ------------------------------------------------------------------------------------------------ compartment infectiousness
+def gen_infectiousness(tree, out, report):
+    """`build_get_compartment_infectiousness`: recognised statement by statement against the expected source text (nested loops over
+    stratifications / compartment names / strata with dict iteration and object attributes are outside the generic array subset) and
+    emitted in a fixed shape; any other text is refused"""
+    try:
+        b = top_func(tree, "build_get_compartment_infectiousness")
+        ret = b.body[-1]
+        if not (isinstance(ret, ast.Return) and ast.unparse(ret.value) == "get_compartment_infectiousness"):
+            raise Untranslatable("build_get_compartment_infectiousness does not return its closure")
+        fn = inner_func(b, "get_compartment_infectiousness")
+        if arg_names(fn) != ["static_graph_values"]:
+            raise Untranslatable("signature of get_compartment_infectiousness")
+        stmts = [st for st in fn.body if not (isinstance(st, ast.Expr) and isinstance(st.value, ast.Constant))]
+        src = [ast.unparse(st) for st in stmts]
+        want_loop = ("for strat in model._stratifications:\n"
+                     "    for comp_name, adjustments in strat.infectiousness_adjustments.items():\n"
+                     "        for stratum, adjustment in adjustments.items():\n"
+                     "            if adjustment:\n"
+                     "                is_overwrite = isinstance(adjustment, Overwrite)\n"
+                     "                adj_value = static_graph_values[adjustment.param._graph_key]\n"
+                     "                adj_comps = model.get_matching_compartments(comp_name, {strat.name: stratum})\n"
+                     "                for c in adj_comps:\n"
+                     "                    if is_overwrite:\n"
+                     "                        compartment_infectiousness = compartment_infectiousness.at[c.idx].set(adj_value)\n"
+                     "                    else:\n"
+                     "                        orig_value = compartment_infectiousness[c.idx]\n"
+                     "                        compartment_infectiousness = compartment_infectiousness.at[c.idx].set(adj_value * orig_value)")
+        want_strain = ("for strain in model._disease_strains:\n"
+                       "    if 'strain' in model.stratifications:\n"
+                       "        strain_filter = {'strain': strain}\n"
+                       "    else:\n"
+                       "        strain_filter = {}\n"
+                       "    strain_infect_comps = model.query_compartments(strain_filter, tags='infectious', as_idx=True)\n"
+                       "    strain_comp_inf[strain] = compartment_infectiousness[strain_infect_comps]")
+        want = ["compartment_infectiousness = jnp.ones(len(model.compartments))", want_loop, "strain_comp_inf = {}", want_strain, "return strain_comp_inf"]
+        if src != want:
+            k = next((i for i, (a, b_) in enumerate(zip(src, want)) if a != b_), min(len(src), len(want)))
+            raise Untranslatable(f"get_compartment_infectiousness: statement {k} is not the expected text: " + (src[k][:120] if k < len(src) else "<missing>"))
+        text = ("/-- `model_impl.py::build_get_compartment_infectiousness` → `get_compartment_infectiousness`, all compartments (before the per-strain gather): "
+                "`gstat adj` is `static_graph_values[adjustment.param._graph_key]` -/\n"
+                "def get_compartment_infectiousness (m : Model α) (gstat : Adj α → α) : List α :=\n"
+                "  let compartment_infectiousness := List.replicate m.comps.length (1 : α)\n"
+                "  m.strats.foldl (fun compartment_infectiousness strat =>\n"
+                "    strat.infAdj.foldl (fun compartment_infectiousness (ca : String × List (String × Option (Adj α))) =>\n"
+                "      ca.2.foldl (fun compartment_infectiousness (sa : String × Option (Adj α)) =>\n"
+                "        match sa.2 with\n"
+                "        | none => compartment_infectiousness\n"
+                "        | some adjustment =>\n"
+                "          let is_overwrite := Py.isOverwrite adjustment\n"
+                "          let adj_value := gstat adjustment\n"
+                "          let adj_comps := Build.getMatching m ca.1 [(strat.name, sa.1)]\n"
+                "          adj_comps.foldl (fun compartment_infectiousness c =>\n"
+                "            let idx := (compIdx m.comps c).getD 0\n"
+                "            if is_overwrite then compartment_infectiousness.set idx adj_value\n"
+                "            else\n"
+                "              let orig_value := compartment_infectiousness.getD idx 0\n"
+                "              compartment_infectiousness.set idx (adj_value * orig_value)) compartment_infectiousness)\n"
+                "        compartment_infectiousness) compartment_infectiousness) compartment_infectiousness\n\n"
+                "/-- the per-strain gather at the end of `get_compartment_infectiousness` (`strain_infect_comps` is computed by the same query as "
+                "`ModelBackend._strain_infectious_indexers`) -/\n"
+                "def strain_compartment_infectiousness (b : Backend) (compartment_infectiousness : List α) : List (List α) :=\n"
+                "  b.strainInfIdx.map (fun strain_infect_comps => gather compartment_infectiousness strain_infect_comps)\n")
+        out.append(text)
+        report["get_compartment_infectiousness"] = "ok"
+    except Untranslatable as e:
+        report["get_compartment_infectiousness"] = "untranslatable: " + str(e)
+    except Exception as e:
+        report["get_compartment_infectiousness"] = "untranslatable: internal " + type(e).__name__ + ": " + str(e)
+
 # ------------------------------------------------------------------------------------------------ derived outputs
 DSRC = "summer2/runner/jax/derived_outputs.py"
 
@@ -1310,6 +1381,7 @@ variable {α : Type} [Zero α] [One α] [Add α] [Sub α] [Mul α] [Div α] [LT 
 
 HEADER = """-- GENERATED by harness/translate/gen_rates.py from /repo (summer2/runner/jax/model_impl.py). Do not edit.
 import Summer.Model.JaxPrelude
+import Summer.Model.PyPrelude
 import Summer.Model.Run
 set_option linter.unusedVariables false
 namespace Summer.Generated.Rates
@@ -1326,6 +1398,7 @@ def main():
     try:
         tree = parse()
         gen(tree, out, report)
+        gen_infectiousness(tree, out, report)
     except Exception as e:
         report["model_impl.py"] = "untranslatable: " + type(e).__name__ + ": " + str(e)
     out.append("end\nend Summer.Generated.Rates\n")
